@@ -238,6 +238,7 @@ VQ_OP(own) {
     if (pid < 0) throw std::runtime_error("fork");
     if (pid == 0) {
         close(fd[0]);
+        alarm(5);       // memory corruption can send the child into an endless loop
         std::string r = run_case(ops);
         ssize_t w = write(fd[1], r.data(), r.size()); (void)w;
         close(fd[1]);
